@@ -375,7 +375,36 @@ def check_comprehension_shadow(run: Run, ctx: TermCtx, m, cls: ClassInfo, rule: 
             ok_t = ok_t or (contains(t, lambda s_: s_ == ("attr", nodep, "generators")) and whole and contains(t, lambda s_: s_[0] == "attr" and s_[2] == "id"))
         run.check(ok_t, rule, h, h.node, "frame holds every Name inside every generator target (tuple targets included)", f"the frame pushed by {h.name} is not built from all Name nodes found by walking each generator's target", "[n.id for g in node.generators for n in ast.walk(g.target) if isinstance(n, ast.Name)]")
         ok_p = len(pushes) == 1 and len(pops) == 1 and pushes[0].recv is not None and pushes[0].recv == pops[0].recv and event_after(ctx, h, pops[0], pushes[0])
-        body = [e for e in evs if (e.name == "generic_visit" and e.args and e.args[-1] == nodep) or (e.name == "visit" and e.args and e.args[0][0] == "attr" and e.args[0][1] == nodep and e.args[0][2] in ("elt", "key", "value"))]
+        def _result_field(t_) -> bool:
+            # node.elt / node.key / node.value - or getattr(node, <field>) with the field's name taken from a table of
+            # exactly these names (the element fields by kind of comprehension)
+            if t_[0] == "attr" and t_[1] == nodep and t_[2] in ("elt", "key", "value"):
+                return True
+            if t_[0] == "app" and t_[1] == ("global", "builtins.getattr") and len(t_[2]) == 2 and t_[2][0] == nodep:
+                from ..lib import walk_terms as _wt
+
+                names_ = {x_[1] for x_ in _wt(resolve_names(t_[2][1])) if isinstance(x_, tuple) and len(x_) == 2 and x_[0] == "const" and isinstance(x_[1], str)}
+                return bool(names_) and names_ <= {"elt", "key", "value"} and "elt" in names_
+            return False
+
+        def resolve_names(t_):
+            from ..terms import resolve_global_consts
+
+            t_ = resolve_global_consts(m, t_)
+            # a module-level literal table named in the term
+            out_ = [t_]
+            for x_ in walk_terms_(t_):
+                if isinstance(x_, tuple) and len(x_) == 2 and x_[0] == "global" and isinstance(x_[1], str):
+                    mod_, _, nm_ = x_[1].rpartition(".")
+                    mi_ = m.modules.get(mod_)
+                    lit_ = mi_.assigns.get(nm_) if mi_ is not None else None
+                    if isinstance(lit_, (ast.Tuple, ast.List, ast.Dict)):
+                        out_ += [("const", c_.value) for c_ in ast.walk(lit_) if isinstance(c_, ast.Constant) and isinstance(c_.value, str)]
+            return tuple(out_)
+
+        from ..lib import walk_terms as walk_terms_
+
+        body = [e for e in evs if (e.name == "generic_visit" and e.args and e.args[-1] == nodep) or (e.name == "visit" and e.args and _result_field(e.args[0]))]
         ok_b = bool(body) and ok_p and all(event_before(ctx, h, pushes[0], e) and event_after(ctx, h, pops[0], e) for e in body)
         # when the iterables are visited one by one: the first exactly once (before the frame), the others exactly once (inside)
         gens_t = ("attr", nodep, "generators")
